@@ -155,13 +155,20 @@ class Summaries(object):
         self._modenv[module.name] = env
         for st in module.toplevel_stmts:
             try:
-                ev.run([st], env)
+                out = ev.run([st], env)
             except AnalysisError:
                 raise
+            if out is not None and out is not env:
+                # compound statements (for / if / try at module level) hand back a new environment
+                env.clear()
+                env.update(out)
         for k, v in env.items():
             self.glob_terms["%s.%s" % (module.name, k)] = v
         self._modsites = getattr(self, "_modsites", {})
         self._modsites[module.name] = ev.summary.sites
+        self._modloops = getattr(self, "_modloops", {})
+        for lid, (node, it) in ev.summary.loops.items():
+            self._modloops[(module.name, lid)] = it
         return env
 
     def module_sites(self, modname):
